@@ -22,5 +22,5 @@ def _nontrivial(c):
     return s["items"] >= 2 and s["depth"] >= 2
 
 
-mach.install(globals(), "C04", ("EvBefore", "EvFlush"), ("C04:",), PROFILES, n_quick=300, n_thorough=5000,
+mach.install(globals(), "C04", ("EvBefore", "EvFlush"), ("C04:",), PROFILES, n_quick=300, n_thorough=25000,
              nontrivial=_nontrivial, case_filter=machmon.yield_only, level="proof")
